@@ -244,6 +244,7 @@ PYTH = [('0.3', '0.4', '0'), ('0.1', '0.2', '0.2'), ('0.2', '0.3', '0.6'), ('-0.
         ('0.4', '-0.4', '0.2'), ('0', '0', '-0.3'), ('0.5', '0', '0'), ('-0.2', '-0.1', '-0.2'), ('0', '0', '0.3'),
         ('3', '4', '0'), ('1', '2', '2'), ('-2', '3', '6'), ('0.03', '0', '-0.04'), ('1.2', '-1.2', '0.6')]
 MAX_OP_SECONDS = 12
+TINY = ['0.000000001', '0.000001', '0.0001', '0.0008', '0.001', '0.0010000001']
 
 
 def _bound_duration(ops, rng):
@@ -413,9 +414,19 @@ def gen_hl_case(rng, quirks=True):
         if rng.random() < 0.07:
             case['ops'].append(['link_state', rng.choice([0, 0, 0, 1])])
             continue
+        if rng.random() < 0.06:
+            # many short steps in a row (e.g. 15 x 0.8 mm), ordinary moves follow and must start from the accumulated position
+            name, d = rng.choice(['up', 'forward', 'left', 'back']), rng.choice(['0.0008', '0.0001', '0.001', '0.000001'])
+            i, sgn = {'left': (1, 1), 'forward': (0, 1), 'back': (0, -1), 'up': (2, 1)}[name]
+            for _i in range(rng.choice([3, 8, 15])):
+                case['ops'].append([name, d, None])
+                pos[i] += sgn * Fraction(d)
+            continue
         if k < 0.35:
             name = rng.choice(['left', 'right', 'forward', 'back', 'up', 'down', 'down'])
             d = rng.choice(DIST + (['0', '-0.3'] if quirks else []))
+            if rng.random() < 0.15:
+                d = rng.choice(TINY)              # wave 13: displacements down to a nanometre are displacements
             if name == 'down' and pos[2] > 0 and rng.random() < 0.35:
                 d = str(pos[2])                   # come down to height exactly 0.0
             ops_d = Fraction(d)
@@ -492,6 +503,9 @@ def fixed_cases():
         {'kind': 'hl', 'ops': [['link_state', 0], ['up', '0.2', None], ['land', None, None], ['take_off', None, None]]},
         {'kind': 'hl', 'ops': [['down', '2', None]]},                                                               # F17b
         {'kind': 'hl', 'default_landing_height': '1', 'ops': []},                                                   # F17b
+        {'kind': 'hl', 'ops': [['up', '0.0008', None]] * 15 + [['forward', '0.5', None], ['go_to', '1', '0', '0.512', None]]},    # wave 13
+        {'kind': 'hl', 'ops': [['forward', '0.000000001', None], ['left', '0.001', None], ['move_distance', '0.0006', '0', '0.0008', None],
+                               ['back', '0.0010000001', '2'], ['go_to', '0.000001', '0.001', '0.5008', None], ['down', '0.2', None]]},
         {'kind': 'hl', 'ops': [['down', '0.5', None]]},                                      # height lands exactly on 0.0
         {'kind': 'hl', 'ops': [['go_to', '1', '0', '0', None], ['go_to', '1', '0', None, None]]},
         {'kind': 'hl', 'default_landing_height': '0.3', 'ops': [['land', None, '0'], ['take_off', '0', None], ['up', '0.4', None]]},
@@ -762,8 +776,11 @@ def check_hl(case, r, consts):
     ldef = fl(case.get('default_landing_height'), float(Fraction(d0['default_landing_height'])))
     start = [fl(case.get(c), float(Fraction(d0[c]))) for c in ('x', 'y', 'z')]
 
-    def dur_ok(dur, dist, v):
-        return v != 0 and abs(dur * v - dist) <= 1e-7 * max(1.0, dist)
+    def dur_ok(dur, dist, v):        # relative: displacements go down to 1e-9 m
+        return v != 0 and abs(dur * v - dist) <= 1e-6 * dist + 1e-13
+
+    def pclose(a, t):                # positions are sums of a few numbers of size ~1: far below a nanometre of rounding
+        return abs(a - t) <= 1e-11 * max(1.0, abs(a), abs(t))
 
     def want_dur(dist, v):
         return dist / v if v != 0 else 'ZeroDivisionError (velocity 0)'
@@ -829,17 +846,17 @@ def check_hl(case, r, consts):
             if list(after) != list(before) or evs:
                 fails.append(('hl_position_drift', '%s changed the reported position or sent a command' % name, before, after))
             continue
-        if not all(_close(a, t) for a, t in zip(after, tgt)):
+        if not all(pclose(a, t) for a, t in zip(after, tgt)):
             fails.append(('hl_position_not_sum', '%s%r: reported position must be the previous one plus the displacement '
                           '(go_to: the target)' % (name, op[1:]), tgt, after))
         dist = math.sqrt(sum((t - b) ** 2 for t, b in zip(tgt, before)))
-        if enames not in ([], ['h.go_to']) or (dist > 1e-9 and enames != ['h.go_to']):
-            fails.append(('hl_goto_missing', '%s%r: exactly one go_to must be issued for a non-zero move' % (name, op[1:]),
+        if enames not in ([], ['h.go_to']) or (dist > 1e-12 and enames != ['h.go_to']):
+            fails.append(('hl_goto_missing', '%s%r: exactly one go_to must be issued for a non-zero displacement (here %.3g m), however small' % (name, op[1:], dist),
                           ['h.go_to'], enames))
             continue
         if enames:
             g = evs[0]
-            if not all(_close(a, t) for a, t in zip(g[2:5], after)) or not all(_close(a, t) for a, t in zip(g[2:5], tgt)):
+            if not all(pclose(a, t) for a, t in zip(g[2:5], after)) or not all(pclose(a, t) for a, t in zip(g[2:5], tgt)):
                 fails.append(('hl_goto_target', 'go_to must target the requested position, which is the position reported afterwards',
                               tgt, g[2:5]))
             if not dur_ok(g[6], dist, v):
